@@ -716,6 +716,9 @@ impl Engine for C15 {
             if case["stdin"] != "null" {
                 v.push(set("stdin", json!("null")));
             }
+            if !case["prog_form"].is_null() && case["prog_form"] != "plain" {
+                v.push(set("prog_form", json!("plain")));
+            }
             return v;
         }
         let steps = case["steps"].as_array().unwrap();
@@ -894,7 +897,8 @@ fn gen_real(r: &mut Rng) -> Value {
         3 => "timeout-zero",
         _ => "",
     };
-    json!({"kind": "real", "args": args, "env": env, "cwd": cwd, "stdin": stdin, "refuse": refuse, "computed": r.chance(40)})
+    let prog_form = r.pick(&["plain", "plain", "dot", "symlink"]);
+    json!({"kind": "real", "args": args, "env": env, "cwd": cwd, "stdin": stdin, "refuse": refuse, "computed": r.chance(40), "prog_form": prog_form})
 }
 
 /// The un-hooked `naija` binary runs the builder script against the real OS; the real helper
@@ -913,6 +917,24 @@ fn exec_real(case: &Value) -> RunResult {
     let marker = format!("{dir}/spawned.marker");
     let _ = std::fs::remove_file(&marker);
     let lit = |s: &str| val_lit(&json!(s), computed);
+    // the program string: the helper's path as it is, with a `/./` component, or through a symbolic
+    // link whose name a shell would split - the child must see exactly that string as its argv[0]
+    let helper = match case["prog_form"].as_str().unwrap_or("plain") {
+        "dot" => match helper.rfind('/') {
+            Some(k) => format!("{}/./{}", &helper[..k], &helper[k + 1..]),
+            None => helper,
+        },
+        "symlink" => {
+            let link = format!("{dir}/tool link");
+            let _ = std::fs::remove_file(&link);
+            if std::os::unix::fs::symlink(&helper, &link).is_err() {
+                res.verdict = Verdict::Discard("cannot-create-symlink".into());
+                return res;
+            }
+            link
+        }
+        _ => helper,
+    };
     let mut src = format!("make c get command({})\nc.arg(\"report\")\n", strlit(&helper));
     let args: Vec<String> = case["args"].as_array().unwrap().iter().map(|a| a.as_str().unwrap().to_string()).collect();
     for a in &args {
@@ -980,6 +1002,7 @@ fn exec_real(case: &Value) -> RunResult {
     if lines.next() != Some("0") {
         return res.violation("wrong-exit-code", format!("real OS: helper exit code printed as {:?}", out.lines().next()));
     }
+    let mut got_arg0: Option<Vec<u8>> = None;
     let mut got_args: Vec<Vec<u8>> = vec![];
     let mut got_env: BTreeMap<String, String> = BTreeMap::new();
     let mut got_cwd: Option<Vec<u8>> = None;
@@ -988,6 +1011,7 @@ fn exec_real(case: &Value) -> RunResult {
     for l in lines {
         let mut it = l.split(' ');
         match it.next() {
+            Some("arg0") => got_arg0 = Some(realos::unhex(it.next().unwrap_or(""))),
             Some("arg") => got_args.push(realos::unhex(it.next().unwrap_or(""))),
             Some("env") => {
                 let k = String::from_utf8_lossy(&realos::unhex(it.next().unwrap_or(""))).into_owned();
@@ -1002,6 +1026,12 @@ fn exec_real(case: &Value) -> RunResult {
     }
     if !complete {
         return res.violation("harness", format!("real OS: helper report incomplete: {:?}", out.chars().take(300).collect::<String>()));
+    }
+    if got_arg0.as_deref() != Some(helper.as_bytes()) {
+        return res.violation(
+            "wrong-program",
+            format!("real OS: the child's program name is {:?}, the script said {helper:?}", got_arg0.map(|c| String::from_utf8_lossy(&c).into_owned())),
+        );
     }
     let want_args: Vec<Vec<u8>> = args.iter().map(|a| a.as_bytes().to_vec()).collect();
     if got_args != want_args {
